@@ -113,8 +113,6 @@ def gen_cases(run, thorough):
         cases.append("C %d 22 64 64 %s F,F/Z /F" % (q, hx(pool["hello40"])))
         cases.append("W %d 22 8 /Z w%s,f,f,f,f,c" % (q, hx(HELLO * 4)))
         cases.append("R %d 22 64 %s /S1 0,0,1,0/1/4000" % (q, hx(HELLO * 4)))
-        cases.append("C %d 22 0 64 %s /F /F" % (q, hx(HELLO)))
-        cases.append("C %d 22 64 0 %s /F /F" % (q, hx(HELLO)))
     # ---- PRNG: long scripts, all qualities, buffer sizes incl. 1 and the 0 -> 4096 default, caller sizes incl. 0
     nrand = 6000 if thorough else 900
     for _ in range(nrand):
@@ -152,6 +150,7 @@ def gen_cases(run, thorough):
             cases.append("W %d 18 4096 %s %s" % (q, rand_script(rng, zero_w=0), ",".join(chop(rng, data, False) + ["c"])))
             cases.append("C %d 18 4096 4096 %s %s %s" % (q, hx(data), rand_script(rng), rand_script(rng, zero_w=0)))
             cases.append("C %d 16 300 100 %s /S299 /S99" % (q, hx(data)))
+    rng.shuffle(cases)   # balance the shards
     return cases
 
 
@@ -232,7 +231,21 @@ def case_dict(case, impl, verdict, prof):
         op = "read"
     elif adapter == "copy":
         op = "copy"
+    fault = "-"
+    fl = kv(facts, "faults")
+    if adapter == "copy":
+        rf, wf = kv(facts, "rfaults"), kv(facts, "wfaults")
+        fl = rf if rf != "-" else wf
+    for f in fl.split(","):
+        if "@" in f and int(f.split("@")[1]) == call:
+            fault = "Z" if f.startswith("Z") else "E"
+            break
+    panic = "-"
+    if 0 <= call < len(results) and results[call].startswith("PANIC"):
+        panic = results[call][6:-1]
     d = {"request": case if len(case) < 4000 else case[:4000] + "...", "adapter": adapter, "profile": prof,
+         "fault": fault, "panic": panic,
+         "stored_errors_before": (t[2] + t[3]) if adapter == "write_all" else "-",
          "quality": int(t[1]) if adapter != "write_all" else -1,
          "kind": kind, "call": call, "op": op,
          "n_write_zero_errors_before": before.count("eWZ"), "n_invalid_data_errors_before": before.count("eINV"),
@@ -312,7 +325,7 @@ def check(run):
         return
     cases = gen_cases(run, thorough)
     profiles = ["dev", "release"] if thorough else ["dev"]
-    total_eval, nontriv, reached, kinds, verdicts = 0, set(), {}, {}, {}
+    total_eval, nontriv, reached, kinds, verdicts, seen = 0, set(), {}, {}, {}, {}
     contract_calls, contract_viol, first_cv = 0, 0, None
     nbad = 0
     for prof in profiles:
@@ -346,8 +359,12 @@ def check(run):
             verdicts[vk] = verdicts.get(vk, 0) + 1
             if s != "OK":
                 nbad += 1
-                run.report("spec-violation", case_dict(c, a, s, prof), {"impl": a[:3000], "model": b[:3000], "spec": s},
-                           what="adapter session violates the C11 specification (coq/spec/IOSpec.v): " + s)
+                cd = case_dict(c, a, s, prof)
+                key = (cd["adapter"], cd["kind"], cd["op"], cd["quality"] <= 1)
+                seen[key] = seen.get(key, 0) + 1
+                if vlib.match_known(PROP, cd) is not None or seen[key] <= 3:
+                    run.report("spec-violation", cd, {"impl": a[:3000], "model": b[:3000], "spec": s},
+                               what="adapter session violates the C11 specification (coq/spec/IOSpec.v): " + s)
             elif ia != mb:
                 nbad += 1
                 if sum(1 for v in run.violations if v[0] == "correspondence") < 5:
@@ -378,6 +395,7 @@ def replay(path):
         print("replay file has no (complete) request (kind=%s): %s" % (d.get("kind"), d.get("broken")))
         return 1
     prof = d["case"].get("profile", "dev")
+    vlib.coq_regen(["IO"])
     _, _, impl_exe = vlib.harness_build("c11", prof)
     vlib.coq_extract("C11")
     _, _, model = vlib.ocaml_build("C11", "c11_driver.ml")
